@@ -39,6 +39,10 @@
 using std::cerr;
 using std::string;
 
+// Nesting depth of expand_manifest() calls, and its limit; see get_identifier().
+static int manifest_expansion_depth = 0;
+static const int max_manifest_expansion_depth = 200;
+
 // We manage our own visibility counter, in addition to that managed by
 // cppBison.y.  We do this just so we can define manifests with the correct
 // visibility when they are declared.  (Asking the parser for the current
@@ -2251,7 +2255,12 @@ get_identifier(int c) {
     // If the manifest is expecting arguments, we don't expand it unless the
     // the next token is an open-parenthesis.
     CPPManifest *manifest = (*mi).second;
-    if (manifest->_has_parameters) {
+    if (manifest_expansion_depth >= max_manifest_expansion_depth) {
+      // A function-like macro may be expanded again while its own expansion
+      // is rescanned, so one whose expansion invokes itself would otherwise
+      // be expanded without bound.
+      error("macro " + name + " is expanded recursively; not expanding it any further", loc);
+    } else if (manifest->_has_parameters) {
       while (c != EOF && isspace(c)) {
         get();
         c = peek();
@@ -2526,7 +2535,10 @@ expand_manifest(const CPPManifest *manifest, const YYLTYPE &loc) {
     << "Expanding " << manifest->_name << " to " << expanded << "\n";
 #endif
 
-  return internal_get_next_token();
+  ++manifest_expansion_depth;
+  CPPToken token = internal_get_next_token();
+  --manifest_expansion_depth;
+  return token;
 }
 
 /**
